@@ -2,13 +2,14 @@ import Ecal.Drivers.Util
 import Ecal.Model.Parser
 import Ecal.Model.TokenChannel
 import Ecal.Model.ParserWF
+import Ecal.Model.ParserWalk
 /-!
 Driver of C07. Payload (space separated): `<source-hex> <token>,<token>,…` where the token list
 is what the REAL lexer (`parser.LexToList`) produced for the source and
 `<token> = id.pos.valhex.identifier.allowEscapes.prefixNewlines.line.col`.
 The model parser runs on these tokens. Result:
   `OK <tree> wf=<0|1> leak=<0|1>`   or   `ERR <kind> <line> <col> leak=<0|1>`
-`<tree>` = `(name valhex raw child…)` without positions; `wf` = `WellFormed` decided on that
+`<tree>` = `(name valhex raw child…)` without positions; `wf` = `WellFormed`, `WellFormedRoot` (strict) and `walkable` decided on that
 tree; `leak` = verdict of the channel model (with drain) for the number of tokens the model parser
 had taken when it returned.
 -/
@@ -67,8 +68,20 @@ def runCase (payload : String) : String :=
       let tail := " leak=" ++ b01 (Ecal.Chan.leaks .sync ts.length (k + 2))
       let nt := if ts.length ≥ 3 then "\tnt=1" else ""
       match parseToks ts with
-      | (some t, none) => "OK " ++ treeText t ++ " wf=" ++ b01 (WellFormed t) ++ tail ++ nt
-      | (none, some (.perr kind l c)) => "ERR " ++ kindText kind ++ " " ++ toString l ++ " " ++ toString c ++ tail ++ nt
+      | (some t, none) => "OK " ++ treeText t ++ " wf=" ++ b01 (WellFormed t && WellFormedRoot t && walkable t) ++ tail ++ nt
+      | (none, some (.perr kind l c)) =>
+        let line := "ERR " ++ kindText kind ++ " " ++ toString l ++ " " ++ toString c ++ tail
+        -- known finding `unexpected-end-unpositioned`: a premature end is reported without a position
+        -- (Line 0, Pos 0); the property demands a positioned error: the position of the EOF token
+        if kind = "Unexpected end" ∧ l = 0 then
+          let eof := match (ts.filter (·.id = 1)).getLast? with
+            | some t => some t
+            | none => ts.getLast?
+          match eof with
+          | some t => line ++ nt ++ "\tkf=unexpected-end-unpositioned\tspec=ERR UnexpectedEnd " ++ toString t.line ++ " "
+              ++ toString t.col ++ tail
+          | none => line ++ nt
+        else line ++ nt
       | (none, some .panic) => "PANIC-PREDICTED" ++ tail
       | (none, some .fuel) => "OUT-OF-FUEL" ++ tail
       | (some _, some _) => "BOTH" ++ tail
